@@ -2320,7 +2320,17 @@ where
                 message: e.to_string(),
             })?;
 
-    let context = build_k1_forward_context_from_cell(tds, cell_key, vertex_key)?;
+    let context = match build_k1_forward_context_from_cell(tds, cell_key, vertex_key) {
+        Ok(context) => context,
+        Err(err) => {
+            // The vertex is already in the Tds: undo that before reporting the error (a stale or
+            // foreign cell key must not leave an isolated vertex behind).
+            if let Some(inserted) = tds.get_vertex_by_key(vertex_key).copied() {
+                let _ = tds.remove_vertex(&inserted);
+            }
+            return Err(err);
+        }
+    };
     let result = apply_bistellar_flip::<K, U, V, D, 1>(tds, kernel, &context);
 
     if result.is_err()
